@@ -364,7 +364,7 @@ def coq_wf(wf):
 
 def coq_out(im):
     if im[0] == 'error':
-        return 'None'
+        return '(@None (list ocomp))'
     os_ = []
     for (st, nm, refs, args, replica, replicate, agg) in im[1]:
         os_.append('{| o_stage := %s; o_name := %s; o_refs := %s; o_args := %s; o_replica := %s; o_replicate := %s |}'
@@ -375,7 +375,7 @@ def coq_out(im):
 
 def coq_graph(g):
     if g is None or g[0] != 'ok':
-        return 'None'
+        return '(@None (list string * list (string * string)))'
     return '(Some (%s, %s))' % (clist(g[1], cstr), clist(g[2], lambda e: '(%s, %s)' % (cstr(e[0]), cstr(e[1]))))
 
 
